@@ -267,4 +267,91 @@ theorem pendOk_isWake (L : List Nat) (e : Ev) (h : pendOk L e = true) : isWake e
     | _ => cases h
   | _ => first | rfl | cases h
 
+/-! ### the phase `Pend`: a tick of the reference run is deferred -/
+
+def isCR : SObj → Bool
+  | .created _ => true
+  | .running _ _ _ => true
+  | _ => false
+
+theorem isCR_notWaiting {s : SObj} (h : isCR s = true) : NotWaiting s := by
+  intro fn wf wk aw hs; rw [hs] at h; cases h
+
+theorem isCR_live {s : SObj} (h : isCR s = true) : terminal s.label = false := by
+  cases s <;> first | rfl | cases h
+
+theorem SRel.eq_of_notWaiting {cw dw : List WF} {s s' : SObj} (h : SRel cw dw s s') (hn : NotWaiting s) : s' = s := by
+  rcases h with ⟨h, _⟩ | ⟨fn, wf, aw, wf', w, h1, _⟩
+  · exact h.symm
+  · exact absurd h1 (hn _ _ _ _)
+
+/-- the run with pauses `c` is held at a step boundary in CREATED or RUNNING; the reference run `d` has **not yet** received the
+tick in which `c` got there: `c` corresponds (`Mid`) to `firstStep d`, the configuration of the reference run after the first
+step of that tick.  `L` contains the futures that carry a done-callback in `d`. -/
+structure Pend (L : List Nat) (c d : Cfg) : Prop where
+  held : isAwaitPaused c.pc = true
+  cr : isCR c.st = true
+  ok : okFirst d = true
+  mid : Mid c (firstStep d)
+  dint : d.interrupt = none
+  dlive : terminal d.st.label = false
+  dclosed : d.closed = false
+  blk : ∀ f, f ∈ d.efCb → f ∈ L
+  rn : ResumeNoop d
+
+theorem mid_upd {c d0 : Cfg} (h : Mid c d0) (E : List EFut) (R : List Cb) : Mid (upd c E R) (upd d0 E R) := by
+  refine ⟨⟨?_, h.core.st, h.core.ckill, h.core.dint, h.core.dpaused⟩, h.int, h.stepping, h.ncc, h.ncd⟩
+  obtain ⟨g1, g2, g3, g4, g5, g6, g7, g8, g9, g10, g11, g12, g13, g14, g15⟩ := sh_fields h.core.sh
+  rw [sh_eq_iff]
+  exact ⟨g1, g2, g3, g4, g5, rfl, g7, g8, g9, rfl, g11, g12, g13, g14, g15⟩
+
+/-- **a wake-up request of the fourth class keeps `Pend`**: delivered to the run with pauses while it is held, and to the
+reference run before the deferred tick -/
+theorem pend_wake (P : Prog) (L : List Nat) (c d : Cfg) (e : Ev) (h : Pend L c d) (hok : pendOk L e = true) :
+    Pend L (step P c e).1 (step P d e).1 := by
+  obtain ⟨f1, f2, f3⟩ := firstStep_fields d h.ok h.dint h.dlive h.dclosed
+  obtain ⟨g1, g2, g3, g4, g5, g6, g7, g8, g9, g10, g11, g12, g13, g14, g15⟩ := sh_fields h.mid.core.sh
+  have hcn : NotWaiting c.st := isCR_notWaiting h.cr
+  have hd0 : (firstStep d).st = c.st := h.mid.core.st.eq_of_notWaiting hcn
+  have e1 : (step P d e).1 = upd d (newE d.efs e) (newR d.ready e) := wake_upd P d L e hok h.blk h.rn
+  have e2 : (step P c e).1 = upd c (newE d.efs e) (newR d.ready e) := by
+    rw [wake_upd P c L e hok (fun f hf => h.blk f (f3 f (by rw [← g7]; exact hf))) (Or.inl hcn), g6, g10, f1, f2]
+  rw [e1, e2]
+  refine ⟨h.held, h.cr, h.ok, ?_, h.dint, h.dlive, h.dclosed, h.blk, h.rn⟩
+  rw [firstStep_upd d _ _ h.ok h.dint h.dlive h.dclosed]
+  exact mid_upd h.mid _ _
+
+theorem Pend.frame {L : List Nat} {c c' d : Cfg} (h : Pend L c d) (f : PFrame c c') (hi : c'.interrupt = none) : Pend L c' d := by
+  refine ⟨by rw [f.2.2.2]; exact h.held, by rw [f.2.1]; exact h.cr, h.ok, ?_, h.dint, h.dlive, h.dclosed, h.blk, h.rn⟩
+  refine ⟨h.mid.core.left f, hi, ?_, ?_, h.mid.ncd⟩
+  · have := (sh_fields f.1).1; rw [this]; exact h.mid.stepping
+  · intro e he; rw [f.2.2.2] at he; exact h.mid.ncc e he
+
+theorem pause_pend (L : List Nat) (c d : Cfg) (h : Pend L c d) : Pend L (pause c).1 d := by
+  rcases pause_shape c h.mid.core.ckill with b | ⟨hs, he⟩ | ⟨hs, hpn, b⟩
+  · exact h.frame b.1 (by rw [b.2.1]; exact h.mid.int)
+  · rw [he]; exact h.frame (doPauseHooks_pf c) h.mid.int
+  · rw [h.mid.stepping] at hs; cases hs
+
+theorem play_pend (L : List Nat) (c d : Cfg) (h : Pend L c d) : Pend L (play c).1 d := by
+  obtain ⟨f, hi, hio, hp⟩ := play_shape c
+  exact h.frame f (by rw [hi]; exact h.mid.int)
+
+/-- a tick that does not wake the held stepping task keeps `Pend` -/
+theorem tick_pend_idle (P : Prog) (L : List Nat) (c d : Cfg) (h : Pend L c d) (hr : runsBody c = false) :
+    Pend L (tickStepper P c) d := by
+  rcases tickStepper_not_runsBody P c h.held hr with e | ⟨pf', e⟩
+  · rw [e]; exact h
+  · rw [e]
+    exact ⟨rfl, h.cr, h.ok, ⟨⟨h.mid.core.sh, h.mid.core.st, h.mid.core.ckill, h.mid.core.dint, h.mid.core.dpaused⟩,
+      h.mid.int, h.mid.stepping, (by intro x hx; cases hx), h.mid.ncd⟩, h.dint, h.dlive, h.dclosed, h.blk, h.rn⟩
+
+/-- **flushing the deferred tick**: once the reference run receives it, the two runs are in the phase `Lag` of the earlier
+classes -/
+theorem pend_flush (P : Prog) (L : List Nat) (c d : Cfg) (h : Pend L c d) (hD : tickDone P d = true) :
+    Lag P c (tickStepper P d) := by
+  obtain ⟨t1, t2⟩ := tick_first P d h.ok
+  rw [t2] at hD
+  exact ⟨h.held, firstStep d, fuel0, Nat.le_refl _, hD, t1, h.mid⟩
+
 end PMF
